@@ -1,10 +1,11 @@
 ID = 'C08'
 TITLE = 'Perturbation wrappers evaluate exactly the input that each output index denotes'
 CONTRACT_MODULES = ['contracts.utils_c', 'contracts.predict_c', 'contracts.ersatz_c', 'contracts.wrappers_c']
-FUNCTIONS = ['tangermeme.marginalize.marginalize', 'tangermeme.ablate.ablate']
+FUNCTIONS = ['tangermeme.marginalize.marginalize', 'tangermeme.ablate.ablate', 'tangermeme.marginalize.marginalize_annotations',
+             'tangermeme.ablate.ablate_annotations', 'tangermeme.space.space']
 BOUNDED = 'bounded.C08'
 BOUNDED_BUDGET = {'quick': 60, 'thorough': 600}
-LEVEL = 'proof'
+LEVEL = 'other'
 EXPLANATION = ("index identity of every wrapper output as a postcondition over an uninterpreted row-wise func/model "
                "(row contents as z3 lambda arrays): marginalize before/after, ablate through reshape(-1), repeat_interleave "
                "and the inverse reshape; callee contracts (substitute, predict) used modularly at call sites")
